@@ -15,12 +15,14 @@ import (
 	"errors"
 	"fmt"
 	"io"
+	"net/http"
 	"net/http/httptest"
 	"os"
 	"runtime"
 	"sort"
 	"strings"
 	"sync"
+	"sync/atomic"
 	"syscall"
 	"time"
 
@@ -351,9 +353,24 @@ func serve(h drpc.Handler, ct string, body io.Reader, hdr []string) *httptest.Re
 		req.Header["X-Drpc-Metadata"] = hdr
 	}
 	rec := httptest.NewRecorder()
+	// every other call the gateway gets a ResponseWriter that is only that (no Flush, as behind
+	// http.TimeoutHandler or a middleware that wraps the writer in a struct of its own)
+	if atomic.AddUint64(&serveCalls, 1)%2 == 0 {
+		drpchttp.New(h).ServeHTTP(plainWriter{rec}, req)
+		return rec
+	}
 	drpchttp.New(h).ServeHTTP(rec, req)
 	return rec
 }
+
+var serveCalls uint64
+
+// plainWriter hides every optional interface of the recorder.
+type plainWriter struct{ rec *httptest.ResponseRecorder }
+
+func (p plainWriter) Header() http.Header         { return p.rec.Header() }
+func (p plainWriter) Write(b []byte) (int, error) { return p.rec.Write(b) }
+func (p plainWriter) WriteHeader(code int)        { p.rec.WriteHeader(code) }
 
 // sizedReader yields n bytes of a repeating pattern without allocating them.
 type sizedReader struct {
